@@ -55,6 +55,41 @@ UNSAFE_SITES = [
 UNSAFE_FILES = LOCK_FILES + ["src/scheduler/queue_state.rs", "src/scheduler/queue_resumer.rs", "src/scheduler/try_sync_error.rs", "src/scheduler/mod.rs", "src/lib.rs"]
 UNSAFE_PROPS = ["C01", "C05", "C14"]
 
+# S-pin: functions of /repo that are NOT under contract (threads, channels, raw pointers, trivial forwarders: outside the verifier's dialect
+# or not worth a contract) but whose behaviour the contracts of other functions ASSUME. Their text is fingerprinted in specs/pins.json
+# (tools/pin.py, run by hand after reading them); if one of them changes, the properties that lean on it are UNDECIDED - never OK, never
+# a VIOLATION: (file, qualified fn, properties, what is assumed)
+_API = ["C01", "C02", "C04", "C05", "C07", "C08", "C09"]
+PINNED = [
+    ("src/scheduler/scheduler_thread.rs", "SchedulerThread::new", ["C03", "C10", "C15", "C17"], "spawns one OS thread that runs every closure sent to it, in order, once; the thread dies if a closure panics (is_finished becomes true)"),
+    ("src/scheduler/scheduler_thread.rs", "SchedulerThread::run", ["C03", "C10", "C15"], "hands the closure to the thread exactly once, never blocks"),
+    ("src/scheduler/scheduler_thread.rs", "SchedulerThread::is_finished", ["C10", "C15", "C17"], "true iff the OS thread has exited"),
+    ("src/scheduler/scheduler_thread.rs", "SchedulerThread::despawn", ["C10", "C17"], "drops the sender (the thread exits after its current job) and returns the join handle"),
+    ("src/scheduler/unsafe_job.rs", "UnsafeJob::new", ["C04", "C14"], "erases the lifetime of the borrowed job; nothing else"),
+    ("src/scheduler/unsafe_job.rs", "UnsafeJob::new_with_notification", ["C04", "C14"], "as new, plus the (condvar, flag) pair that Drop for UnsafeJob signals"),
+    ("src/scheduler/unsafe_job.rs", "ScheduledJob for UnsafeJob::run", ["C04", "C14"], "runs the borrowed job through the erased pointer, once per call"),
+    ("src/scheduler/job.rs", "Job::new", ["C03"], "stores the closure; run takes it"),
+    ("src/scheduler/future_job.rs", "FutureJob::new", ["C03", "C07"], "stores the future factory; run creates the future once"),
+    ("src/scheduler/queue_state.rs", "FutureId::new", ["C07", "C08", "C13"], "process-wide unique ids"),
+    ("src/scheduler/scheduler_future.rs", "SchedulerFuture::detach", ["C07"], "only drops the future"),
+    ("src/scheduler/sync_future.rs", "SyncFuture::new", ["C08"], "starts in WaitingForQueue with the three parts it is given"),
+    ("src/scheduler/desync_scheduler.rs", "Scheduler::new", ["C10", "C17"], "empty schedule, no threads, the initial maximum"),
+    ("src/scheduler/desync_scheduler.rs", "initial_max_threads", ["C17"], "a positive constant / cpu count"),
+    ("src/scheduler/desync_scheduler.rs", "Scheduler::create_job_queue", ["C01", "C03"], "a fresh JobQueue::new()"),
+    ("src/scheduler/desync_scheduler.rs", "Scheduler::r#async", ["C02"], "forwards to desync once"),
+    ("src/scheduler/desync_scheduler.rs", "scheduler", _API, "the one global scheduler"),
+    ("src/scheduler/desync_scheduler.rs", "queue", ["C01", "C03"], "a fresh queue of the global scheduler"),
+    ("src/scheduler/desync_scheduler.rs", "r#async", ["C02"], "forwards to desync once"),
+    ("src/scheduler/desync_scheduler.rs", "desync", ["C01", "C02", "C03", "C05"], "forwards to Scheduler::desync once"),
+    ("src/scheduler/desync_scheduler.rs", "future_desync", ["C01", "C02", "C07"], "forwards to Scheduler::future_desync once"),
+    ("src/scheduler/desync_scheduler.rs", "future_sync", ["C01", "C02", "C08"], "forwards to Scheduler::future_sync once"),
+    ("src/scheduler/desync_scheduler.rs", "sync", ["C01", "C02", "C04", "C05"], "forwards to Scheduler::sync once"),
+    ("src/scheduler/desync_scheduler.rs", "try_sync", ["C01", "C09"], "forwards to Scheduler::try_sync once"),
+    ("src/desync.rs", "Desync::new", ["C05", "C14"], "boxes the value, leaks the box into the raw pointer that Drop frees, creates the queue"),
+    ("src/desync.rs", "Desync::r#async", ["C02"], "forwards to desync once"),
+    ("src/desync.rs", "Desync::future", ["C02", "C07"], "forwards to future_desync once"),
+]
+
 ASSUMPTIONS = [
     "A1 std::sync::Mutex gives mutual exclusion: a critical section is atomic w.r.t. others on the same mutex",
     "A2 no lock poisoning: lock() always returns Ok (expect/unwrap on a lock result never fails)",
@@ -67,6 +102,7 @@ ASSUMPTIONS = [
     "A9 machine integers: usize lengths / u64 ids only; no arithmetic treated as mathematical except where an overflow obligation is generated by Verus",
     "A10 rely condition: the lock shim's `learn`/`step` postcondition is justified by every lock site on a protected structure being inside a verified function (S-cover, checked every run) and by the meta-lemmas of U-META; interleavings are over-approximated, not enumerated",
     "A11 liveness is not proved: 'eventually runs / returns / is woken' is reduced to the safety obligations P1-P4 of DESIGN.md section 3.6 (no leaked run token, no unpaid reschedule debt, no lost notification pair, no blocking with a lock held) under a fair OS scheduler",
+    "A13 the functions listed in specs/table.py PINNED are not under contract; their assumed behaviour is stated there and their text is fingerprinted (S-pin): a change to one of them makes the properties that lean on it UNDECIDED",
     "A12 signatures of functions under contract are re-declared in the templates with shim types; the extractor checks parameter names/arity against the repository; bodies are verbatim up to the rewrites R1-R14 listed in DESIGN.md section 2.1",
 ]
 
